@@ -41,6 +41,11 @@ void do_op (string s) {
   case "meh":
     REG->set_meh (w[1]);
     break;
+  case "snoop":
+    VL ("x snoop " + oid + " " + w[1]);
+    o = REG->get (w[1]);
+    if (o && o != this_object () && interactive (o) && interactive (this_object ())) snoop (this_object (), o);
+    break;
   case "it":
     VL ("x it " + oid + " " + w[1]);
     input_to ("it_fire", 0, w[1]);
